@@ -51,6 +51,22 @@ CHECKS = {
   note=TRUST + 'Recogniser checks exactly the items the property lists (8-bit bytes in quoted strings are not flagged). '
        'Outside: whole-session streams, structures produced inside the email package.',
   technique='symbolic execution of the real serialisers with z3, independent grammar recogniser as oracle'),
+ 'C10': dict(
+  text='Reference-model equivalence by bounded symbolic execution: programs of <= 2 (quick) / 3 (thorough) message commands '
+       '(STORE/UID STORE with every mode, silent, EXPUNGE, UID EXPUNGE, FETCH BODY[]/BODY.PEEK[], COPY, MOVE, APPEND, CLOSE) '
+       'through the real ConnectionState/BaseSession/dict backend on 2-3 initial messages; sequence/UID-set numbers are '
+       'symbolic integers (numbers, ranges, reversed ranges, *, out of range), the UID base is unbounded; after every command '
+       'the store and the reported flags equal a plain RFC model evaluated on the same operands; z3 decides each path.',
+  note=TRUST + 'EXPUNGE is modelled on the acting session\'s view; keywords are not permitted flags on the dict backend. '
+       'Outside: maildir, body content (C03), longer programs.',
+  technique='symbolic execution of the real session layer with z3 against a reference model, bounded programs'),
+ 'C12': dict(
+  text='Bounded symbolic execution of programs (<= 2 commands: STORE, UID STORE, EXPUNGE, UID EXPUNGE, FETCH BODY[], COPY, MOVE, '
+       'UID MOVE, own APPEND, CLOSE, NOOP; symbolic set numbers and UID base) inside an EXAMINE selection and inside a '
+       'backend-declared read-only mailbox on the real dict backend: the dump of the mailbox (UIDs, flags, unclaimed \\Recent) '
+       'after the program equals the dump before, mutators answer NO, CLOSE answers OK and deselects.',
+  note=TRUST + 'One examining session; COPY into another writable mailbox is allowed. Outside: maildir, concurrent writers (C02).',
+  technique='symbolic execution of the real session layer with z3, before/after store comparison'),
  'C18': dict(
   text='Metamorphic checks by bounded symbolic execution of the real parsers: parse/serialise/re-parse identity for '
        'QuotedString, AString, Flag, Number, SequenceSet over all buffers up to the bound; LOGIN with the user id '
